@@ -1,5 +1,4 @@
 package main
 
-func scanRaceLogs(id, scratch string, bi int, agg *Result) {}
-func typesHashChild(a []string)                             {}
-func exporterChild(a []string)                              {}
+func typesHashChild(a []string) {}
+func exporterChild(a []string)  {}
